@@ -30,8 +30,17 @@ func rgExtractHandlerConf(g *config.GensignConfig, name string, target interface
 	if !ok || name != HandlerName {
 		return errors.New("model: unexpected handler configuration target")
 	}
-	c.CertValiditySec = rgCfg.validity
-	c.KeyIdentifiers = rgCfg.ids
+	// as a weakly typed configuration decoder does: numbers are converted to
+	// the field's type, a map is filled in place when the target has one
+	if !vSetField(c, "CertValiditySec", rgCfg.validity) {
+		return errors.New("model: no CertValiditySec field")
+	}
+	if c.KeyIdentifiers == nil && rgCfg.ids != nil {
+		c.KeyIdentifiers = map[x509.PublicKeyAlgorithm]string{}
+	}
+	for k, v := range rgCfg.ids {
+		c.KeyIdentifiers[k] = v
+	}
 	c.PubKeyDir = rgCfg.dir
 	return nil
 }
